@@ -62,6 +62,7 @@ type c02Propose struct{ root string }
 type c02Delete struct{ idx uint64 }
 type c02Advance struct{ d time.Duration }
 type c02Restart struct{}
+type c02NewBridge struct{}
 type c02Finalize struct {
 	w     int
 	idx   uint64
@@ -113,6 +114,10 @@ func (c02Sys) Letters(s *c02State) []engine.Letter {
 	ls = append(ls, engine.Letter{Name: "Advance(4s)", Data: c02Advance{4 * time.Second}})
 	ls = append(ls, engine.Letter{Name: "Advance(10s)", Data: c02Advance{c02Period}})
 	ls = append(ls, engine.Letter{Name: "RestartViaGenesis", Data: c02Restart{}})
+	// the chain goes on living around the two bridges: somebody opens a third one (once)
+	if n, err := s.w.HK.GetNextBridgeId(s.ctx); err == nil && n == 3 {
+		ls = append(ls, engine.Letter{Name: "CreateBridge(a third one)", Data: c02NewBridge{}})
+	}
 	for wi := 0; wi < 3; wi++ {
 		for idx := uint64(1); idx <= 2; idx++ {
 			for _, pr := range []string{"R12", "R123"} {
@@ -137,6 +142,12 @@ func (c02Sys) Step(s *c02State, l engine.Letter) (*c02State, string, *engine.Vio
 	switch d := l.Data.(type) {
 	case c02Advance:
 		c.ctx = world.Advance(ctx, d.d)
+		return c, "ok", nil
+	case c02NewBridge:
+		res := s.w.Deliver(ctx, ophosttypes.NewMsgCreateBridge(world.Addr("creator").String(), world.BridgeConfig("proposer2", "challenger2", c02Period)))
+		if !res.OK() {
+			return c, "rejected", viol("harness-expectation", "creating a third bridge failed: %v", res.Err)
+		}
 		return c, "ok", nil
 	case c02Restart:
 		if err := s.w.RestartViaGenesis(ctx); err != nil {
